@@ -288,11 +288,17 @@ def do_batch(run, step):
     # ---- C06 in collection mode: the element-level warnings are those of adding one by one ---------
     upto = mids.index(failing[0][0]) + 1 if (strict and failing) else len(mids)
     want_w = sorted(c for ws in fold_elem_warnings[:upto] for c in ws)
-    if not crash and merged_elem_warnings != want_w:
+    # only when the collection merged the same messages to the same state are differing warnings a defect of their own
+    same_state = sorted(got_ids) == mids and final == (states[mids.index(failing[0][0])] if (strict and failing) else states[-1])
+    if not same_state:
+        n_completed_gate = False
+    else:
+        n_completed_gate = True
+    if not crash and same_state and merged_elem_warnings != want_w:
         add('C06.collection', 'collection merge emitted element warnings %r, adding one by one gives %r' % (merged_elem_warnings, want_w))
     # ---- C07 in collection mode: everything after the roDelete is refused ------------------------------
     n_completed = sum(1 for f in failing if f[1] == 'MosCompletedMergeError')
-    if not crash and n_completed:
+    if not crash and n_completed and n_completed_gate:
         if strict and failing[0][1] == 'MosCompletedMergeError' and type(exc_m).__name__ != 'MosCompletedMergeError':
             add('C07.terminal', 'strict collection merge: the message after the roDelete gave %s instead of MosCompletedMergeError' % type(exc_m).__name__)
         if not strict and exc_m is None and 0 < len(failing) - n_nsw <= n_completed:
@@ -322,6 +328,19 @@ def do_batch(run, step):
             add('C09.nonstrict', '%d MosMergeNonStrictWarning for %d failing message(s) %r' % (n_nsw, len(failing), failing))
         if final != states[-1]:
             add('C09.fold', 'merged collection differs from adding the %d messages one by one (%d failing)' % (len(others), len(failing)))
+
+    # ---- C04 in collection mode: a roReplace that nothing later edits decides the content ------------------
+    if not crash and exc_m is None:
+        failing_ids = {f[0] for f in failing}
+        last = max((i for i, e in enumerate(others) if e['op']['type'] == 'ROReplace' and e['mid'] not in failing_ids
+                    and not e['op'].get('foreign')), default=None)
+        if last is not None and all(e['op']['type'] in ('RODelete', 'ReadyToAir') or e['mid'] in failing_ids for e in others[last + 1:]):
+            from xml.etree import ElementTree
+            from .xmlmodel import canon_et, canon, RoView
+            run.probes['collection-ends-in-roReplace'] += 1
+            v = RoView(canon_et(ElementTree.fromstring(final)))
+            if tuple(v.top) != tuple(canon(n) for n in others[last]['op']['payload']):
+                add('C04.collection', 'the collection\'s last effective message is a roReplace, but the merged content is not the sent one')
 
     # ---- C10: independent of the supply order ------------------------------------------------------
     if crash or (strict and failing):
